@@ -14,7 +14,7 @@ Trace == ndJsonDeserialize("trace.ndjson")
 
 AU == INSTANCE Auth WITH Tokens <- {}, TTLSet <- {}, MaxTick <- 1,
                          ttl <- 0, mem <- <<>>, db <- <<>>, clock <- 0,
-                         issued <- {}, loggedOut <- {}, expired <- {}, out <- <<>>
+                         issued <- {}, loggedOut <- {}, expired <- {}, lo <- <<>>, out <- <<>>
 
 VARIABLES l, bad
 
